@@ -11,31 +11,43 @@ META = {
     "title": "Renaming variables never changes which binding a name refers to",
     "level": "proof",
     "design_ref": "DESIGN.md section 6 / C09",
-    "technique": "Coq theorems about (a) the scoping specification (alpha-normaliser `nameless`), (b) a Gallina model of "
-                 "RenameProcessor's scope stack / reuse pool / avoid set as a state machine, invariant by induction over all "
-                 "operation sequences, (c) the name generator (injective, only valid non-keyword identifiers); the models are "
-                 "tied to the Rust code on every run (generated-name stream, operation traces driven through the real "
-                 "RenameProcessor); the traversal (ScopeVisitor insertion points) is validated per run: darklua's real output "
-                 "trees are alpha-normalised inside Coq and compared with the alpha-normalised input",
+    "technique": "Coq theorems about (a) the scoping specification Lua/Resolve.v (alpha-normaliser `nameless`: idempotent, "
+                 "invariant under every capture-free renaming, and under every renaming with fresh names), (b) a Gallina model "
+                 "of RenameProcessor (scope stack, reuse pool, avoid set) as a state machine with its invariant proved by "
+                 "induction over all operation sequences, (c) the name generator (injective, only valid non-keyword "
+                 "identifiers); the models are tied to the Rust code on every run (generated-name stream, raw permutator, "
+                 "operation traces through the real RenameProcessor, exact output tree of the rule against the traversal "
+                 "model); the property itself is decided per run by translation validation: darklua's real output trees are "
+                 "alpha-normalised inside Coq and compared with the alpha-normalised input",
     "level_text": "Machine-checked theorems for the specification, the scope-stack state machine and the name stream; the "
-                  "traversal itself is covered by translation validation: for every generated program and configuration the "
-                  "real rule's output (tree, and text written by process() re-parsed) has the same nameless form as the "
-                  "input, evaluated by vm_compute in Coq, and every new name is checked against keywords, configured "
-                  "globals and the input's free globals.",
+                  "whole-traversal theorem is only proved for renamers whose choices satisfy the state machine's invariant "
+                  "(C09_rename_preserves_binding_partial), the link from ScopeVisitor's traversal to that hypothesis is "
+                  "covered by translation validation: for every generated program and configuration the real rule's output "
+                  "(tree, and text written by process() re-parsed) has the same nameless form as the input, evaluated by "
+                  "vm_compute in Coq, every new name is checked against keywords, configured globals and the input's free "
+                  "globals, and the output tree equals the traversal model's output exactly.",
     "level_note": "Trusted: Coq kernel + vm_compute; Lua/Resolve.v (the scoping specification); harness dl-rules/astdump/dl-c09; "
-                  "darklua's parser (program text -> tree, output text -> tree).  The whole-traversal theorem "
-                  "(rename_preserves_binding) is NOT proved: it is replaced by the per-run oracle.  Type names / type-field "
-                  "namespaces are not represented in the dumped trees (only typeof(expr) is).",
+                  "darklua's parser (program text -> tree, output text -> tree).  Type names / type-field namespaces are not "
+                  "represented in the dumped trees (only typeof(expr) is), so process_type_field is outside the check.",
     "trusted_base": ["Coq 8.16.1 kernel, vm_compute", "Lua/Resolve.v (scoping specification)",
                      "harness/crates/rules + astdump + c09", "darklua's parser"],
     "allowed_axioms": [],
-    "rule": "templates (one per scoping situation of the property) + seeded random programs over a small identifier pool "
-            "+ 400-live-local programs, each under rule configurations {default, include_functions, globals $default/"
-            "$roblox/[print,foo]}; generators dense/readable/retain_lines for the end-to-end text; non-trivial = the rule "
-            "changed at least one binder name and both output trees pass; distinct by (configuration, source)",
-    "assumptions": ["fewer than 4 771 499 fresh names are drawn in one file (then the generator would emit `self`, which it "
-                    "never avoids; theorem C09_self_never_generated is stated under this bound)",
-                    "ScopeVisitor's traversal is validated per run, not proved (rename_preserves_binding_partial)"],
+    "rule": "programs: 47 templates (one per scoping situation of the property) x 7 configurations + seeded random programs "
+            "over a 28-identifier pool (2 configurations each) + 300/400-live-local programs; configurations {default, "
+            "include_functions, globals $default / $roblox / [print,foo] / [print,foo,a,b]}; generators dense/readable/"
+            "retain_lines for the end-to-end text; non-trivial = the rule changed at least one binder name and both output "
+            "trees pass; distinct by (configuration, source).  Model ties: first 20 000 (quick) / 300 000 (thorough) "
+            "generated names, 6 000 / 300 000 raw permutator strings, 300 / 5 000 random operation traces (non-trivial = "
+            "contains a pop).  Each run also checks that the oracle flags 3 negative controls (captures produced by the real "
+            "rule with detect_globals off) and 7 hand-made bad trees, one per verdict class.",
+    "assumptions": ["fewer than 4 771 499 permutator strings are consumed in one file (the next one is `self`, which the rule "
+                    "never avoids: known finding self-generated-after-4.7M-names; C09_generated_disjoint_from_kept is stated "
+                    "under this bound and C09_generated_disjoint_from_kept_refuted shows it is needed)",
+                    "ScopeVisitor's traversal is validated per run (nameless(OUT) = nameless(IN) in Coq, exact equality with "
+                    "Model/RenameTraversal.v), not proved: C09_rename_preserves_binding_partial",
+                    "typeof(expr) inside a type annotation is resolved outside the binder group the annotation belongs to "
+                    "(Lua/Resolve.v header); darklua resolves generic-for annotations inside the loop scope - programs that "
+                    "mention a loop variable in its own annotation are not generated"],
 }
 
 KEYWORDS = ["and", "break", "do", "else", "elseif", "end", "false", "for", "function", "if", "in", "local", "nil", "not",
@@ -62,7 +74,7 @@ def coq_names(names):
 
 def preamble(tables):
     return """From Coq Require Import ZArith.
-From DL Require Import Lib.Bytes Lua.Syntax Lua.Resolve.
+From DL Require Import Lib.Bytes Lua.Syntax Lua.Resolve Model.Rename Model.RenameTraversal.
 Open Scope N_scope.
 Definition bx := unhex.
 Definition nm := of_string.
@@ -71,7 +83,6 @@ Open Scope string_scope.
 Definition g_default : list name := %s.
 Definition g_roblox : list name := %s.
 Definition keywords : list name := %s.
-Definition mem (x : name) (l : list name) : bool := existsb (bytes_eqb x) l.
 Definition valid_identifier (x : name) : bool :=
   match x with
   | c :: r => is_alpha c && forallb (fun d => is_alpha d || is_digit d) r
@@ -97,10 +108,169 @@ Definition verdict (incl : bool) (globals : list name) (bin bout : block) : N :=
   if list_N_eqb (fingerprint (nameless bout)) (fingerprint (nameless bin))
   then judge incl globals (free_globals bin) (combine (binders_k bin) (binders_k bout)) false
   else 2.
-Definition stat_case (c : (bool * list name) * (block * (block * block))) : N :=
-  let '((incl, globals), (bin, (bout, be2e))) := c in
-  100 * verdict incl globals bin bout + verdict incl globals bin be2e.
+(* + 10000 when the tree darklua produced is not EXACTLY the tree Model/RenameTraversal.v produces *)
+Definition stat_case (c : ((bool * bool) * list name) * (block * (block * block))) : N :=
+  let '(((incl, detect), globals), (bin, (bout, be2e))) := c in
+  (if list_N_eqb (fingerprint (rename_model globals incl detect bin)) (fingerprint bout) then 0 else 10000)
+  + 100 * verdict incl globals bin bout + verdict incl globals bin be2e.
 """ % (coq_names(tables["DEFAULT"]), coq_names(tables["ROBLOX"]), coq_names(KEYWORDS))
+
+
+MODEL_PREAMBLE = """From DL Require Import Lib.Bytes Model.Rename Proof.RenameStream.
+Open Scope N_scope.
+Definition nm := of_string.
+Fixpoint split_nl (s cur : bytes) (acc : list bytes) : list bytes :=
+  match s with
+  | [] => rev acc
+  | c :: r => if c =? 10 then split_nl r [] (rev cur :: acc) else split_nl r (c :: cur) acc
+  end.
+(* the dumped names continue the model's stream of valid identifiers from raw position p *)
+Fixpoint stream_matches (l : list name) (p : N) : bool :=
+  match l with
+  | [] => true
+  | x :: r => match search (fun q => valid_ident (nth_raw q)) search_bits p with
+              | Some q => if bytes_eqb (nth_raw q) x then stream_matches r (q + 1) else false
+              | None => false
+              end
+  end.
+Fixpoint raw_matches (l : list name) (p : N) : bool :=
+  match l with
+  | [] => true
+  | x :: r => if bytes_eqb (nth_raw p) x then raw_matches r (p + 1) else false
+  end.
+Fixpoint names_eqb (a b : list name) : bool :=
+  match a, b with
+  | [], [] => true
+  | x :: a', y :: b' => bytes_eqb x y && names_eqb a' b'
+  | _, _ => false
+  end.
+Inductive kase :=
+| KStream (first : bool) (hex : String.string)      (* a chunk of generated_identifiers; later chunks start with the
+                                                       last name of the chunk before, located by index_of *)
+| KRaw (start : N) (hex : String.string)            (* a chunk of the raw permutator, from position start *)
+| KTrace (avoid0 : list name) (ops : list op) (expected : list name).
+Definition start_of (first : bool) (l : list name) : N :=
+  match l with x :: _ => if first then 0 else index_of x | [] => 0 end.
+Definition check_case (k : kase) : bool :=
+  match k with
+  | KStream first h =>
+    let l := split_nl (unhex h) [] [] in
+    match l with
+    | [] => false
+    | x :: _ => bytes_eqb (nth_raw (start_of first l)) x && stream_matches l (start_of first l)
+    end
+  | KRaw start h => let l := split_nl (unhex h) [] [] in negb (Nat.eqb (List.length l) 0) && raw_matches l start
+  | KTrace avoid0 ops expected => names_eqb (trace (init avoid0) ops) expected
+  end.
+Open Scope string_scope.
+Definition join (l : list name) : String.string :=
+  List.fold_right (fun x acc => (to_string x ++ " " ++ acc)%string) "" l.
+Definition diag_case (k : kase) : String.string :=
+  match k with
+  | KStream _ _ => "stream"
+  | KRaw _ _ => "raw"
+  | KTrace avoid0 ops _ => ("model: " ++ join (trace (init avoid0) ops))%string
+  end.
+"""
+
+TRACE_NAMES = ["x", "y", "a", "b", "c", "aa", "f", "g", "self", "print", "d", "e", "ab", "_"]
+
+
+def make_trace(rnd, long=False):
+    """one operation sequence for the real RenameProcessor / Rename.step"""
+    incl = rnd.random() < 0.5
+    avoid = rnd.sample(["a", "b", "c", "d", "aa", "f", "g", "print", "e", "ab", "A", "_"], rnd.randint(0, 6))
+    n = rnd.randint(150, 400) if long else rnd.randint(5, 60)
+    ops, depth = [], 0
+    for _ in range(n):
+        k = rnd.random()
+        if k < 0.15:
+            ops.append("+")
+            depth += 1
+        elif k < 0.30 and (depth > 0 or rnd.random() < 0.1):
+            ops.append("-")
+            depth = max(0, depth - 1)
+        elif k < (0.80 if long else 0.60):
+            ops.append(rnd.choice(["i:", "l:"]) + rnd.choice(TRACE_NAMES))
+        elif k < 0.65:
+            ops.append("s")
+        elif k < 0.75:
+            ops.append("f:" + rnd.choice(TRACE_NAMES))
+        else:
+            ops.append("?:" + rnd.choice(TRACE_NAMES))
+    return incl, avoid, ops
+
+
+def coq_op(tok, incl):
+    if tok == "+":
+        return "OPush"
+    if tok == "-":
+        return "OPop"
+    if tok == "s":
+        return "OInsertSelf"
+    kind, name = tok.split(":")
+    if kind in ("i", "l") or (kind == "f" and incl):
+        return '(OInsert (nm "%s"))' % name
+    if kind == "f":
+        return '(OKeep (nm "%s"))' % name
+    return '(OLookup (nm "%s"))' % name
+
+
+def model_correspondence(ctx):
+    """tie Model/Rename.v to the compiled code: name streams and operation traces"""
+    quick = ctx.tier == "quick"
+    rnd = random.Random(ctx.seed + 909)
+    cases, meta = [], {}
+    n_stream = 20000 if quick else 300000
+    names = C.harness("dl-c09", ["stream", "--n", str(n_stream)]).split()
+    if len(names) != n_stream:
+        raise C.CheckBroken("dl-c09 stream returned %d names" % len(names))
+    step = 2000
+    for k in range(0, n_stream, step):
+        part = names[max(0, k - 1):k + step]
+        cid = len(cases)
+        meta[cid] = ("stream", k)
+        cases.append((cid, "(KStream %s %s)" % ("true" if k == 0 else "false",
+                                                C.coq_string(("\n".join(part) + "\n").encode().hex()))))
+    n_raw = 6000 if quick else 300000
+    raw = C.harness("dl-c09", ["raw", "--n", str(n_raw)]).split()
+    if len(raw) != n_raw:
+        raise C.CheckBroken("dl-c09 raw returned %d names" % len(raw))
+    for k in range(0, n_raw, step):
+        cid = len(cases)
+        meta[cid] = ("raw", k)
+        cases.append((cid, "(KRaw %d %s)" % (k, C.coq_string(("\n".join(raw[k:k + step]) + "\n").encode().hex()))))
+    n_traces = 300 if quick else 5000
+    traces = [make_trace(rnd, long=(i % 10 == 9)) for i in range(n_traces)]
+    stdin = "".join("%d\t%s\t%s\n" % (1 if incl else 0, ",".join(avoid), " ".join(ops)) for incl, avoid, ops in traces)
+    lines = C.harness("dl-c09", ["trace"], input=stdin).splitlines()
+    if len(lines) != n_traces:
+        raise C.CheckBroken("dl-c09 trace returned %d lines for %d cases" % (len(lines), n_traces))
+    first_trace = len(cases)
+    generated = 0
+    for (incl, avoid, ops), line in zip(traces, lines):
+        got = line.split(" ")
+        if len(got) != len(ops):
+            raise C.CheckBroken("dl-c09 trace: %d results for %d ops" % (len(got), len(ops)))
+        generated += sum(1 for o in ops if o[0] in "il")
+        cid = len(cases)
+        meta[cid] = ("trace", (incl, avoid, ops, got))
+        cases.append((cid, "(KTrace [%s] [%s] [%s])" % (
+            "; ".join('nm "%s"' % a for a in avoid), "; ".join(coq_op(o, incl) for o in ops),
+            "; ".join("[]" if g == "-" else 'nm "%s"' % g for g in got))))
+    bad = C.run_coq_cases(ctx.prop, MODEL_PREAMBLE, cases, chunk=4 if quick else 12, tag="model")
+    bad_ids = {cid for cid, _ in bad}
+    ctx.stream("generate_identifier stream (hook generated_identifiers) = Model.Rename.gen_stream, in Coq",
+               n_stream, n_stream, [{"names": names[60:64]}, {"names": names[-3:]}],
+               mismatching_chunks=sum(1 for c in bad_ids if meta[c][0] == "stream"))
+    ctx.stream("raw Permutator over the identifier alphabet = Model.Rename.nth_raw, in Coq",
+               n_raw, n_raw, [{"names": raw[62:66]}],
+               mismatching_chunks=sum(1 for c in bad_ids if meta[c][0] == "raw"))
+    ctx.stream("operation traces through the real RenameProcessor = Model.Rename.step, in Coq",
+               n_traces, sum(1 for c in range(first_trace, len(cases)) if any(o[0] == "-" for o in meta[c][1][2])),
+               [{"include_functions": t[0], "avoid": t[1], "ops": " ".join(t[2][:40])} for t in traces[:2]],
+               mismatches=sum(1 for c in bad_ids if meta[c][0] == "trace"), names_generated=generated)
+    return [(meta[cid], diag) for cid, diag in bad]
 
 
 # configurations: (rules json, include_functions, coq term of the configured globals)
@@ -126,7 +296,12 @@ VERDICTS = {2: "nameless forms differ: a binding, a global, a field, a method na
 
 def run(ctx):
     C.build_harness("dl-rules")
+    C.build_harness("dl-c09")
     proofs_ok = C.proof_gate(ctx, ["Lua/Resolve.vo"])
+    from concurrent.futures import ThreadPoolExecutor
+    pool = ThreadPoolExecutor(max_workers=1)
+    witness_job = pool.submit(C.harness, "dl-c09", ["self-witness", "--names", "4730700"], None, 900)
+    model_bad = model_correspondence(ctx)
     rnd = random.Random(ctx.seed)
     quick = ctx.tier == "quick"
     tables = read_globals_tables()
@@ -141,7 +316,13 @@ def run(ctx):
             ((400, 0), (400, 1), (300, 2), (400, 3), (4200, 0), (1000, 1), (700, 3)):
         for rules, incl, gl in (rnd.sample(cfgs, 2) if quick else cfgs[:4]):
             jobs.append((rules, rnd.choice(gens), G.many_locals(n, style), incl, gl, "many-locals"))
-    n_random = 700 if quick else 12000
+    # negative controls (outside the property: global detection switched off lets a generated name capture a
+    # global that appears later): the oracle must flag them, otherwise it cannot fail at all
+    controls = ["local x = 1\nreturn a, x", "local function f(p) return p end\nreturn a(f)", "local v = 1\ndo local w = v end\nreturn b"]
+    for src in controls:
+        jobs.append(('[{"rule":"rename_variables","detect_globals":false,"include_functions":true}]', '"dense"', src,
+                     True, "g_default", "control"))
+    n_random = 500 if quick else 12000
     for k in range(n_random):
         src = G.random_program(rnd, luau=(k % 5 == 4))
         for rules, incl, gl in rnd.sample(cfgs, 2):
@@ -172,11 +353,46 @@ def run(ctx):
             continue
         k = len(cases)
         index[k] = job
-        cases.append((k, "((%s, %s), (%s, (%s, %s)))" % ("true" if job[3] else "false", job[4], t_in, t_out, t_e2e)))
+        cases.append((k, "(((%s, %s), %s), (%s, (%s, %s)))" % ("true" if job[3] else "false",
+                                                             "false" if job[5] == "control" else "true",
+                                                             job[4], t_in, t_out, t_e2e)))
+    # self-test of the oracle on hand-made (input tree, bad output tree) pairs, one per verdict class
+    one = "(ENumber (NDec 4607182418800017408 None))"
+    def loc(name, body="None"):
+        return '(Block [(SLocal false [(Param (nm "%s") None)] [%s])] %s)' % (name, one, body)
+    def lfun(name):
+        return '(Block [(SLocalFunction (nm "%s") (FBody [] false None None None 0 (Block [] None)))] None)' % name
+    def scoped(name):
+        return ('(Block [(SDo (Block [(SLocal false [(Param (nm "%s") None)] [%s])] None)); '
+                '(SCall (ECall (EIdent (nm "a")) None (ATuple [])))] None)' % (name, one))
+    selftests = [  # (include_functions, input, bad output, expected verdict)
+        (True, loc("x"), loc("end"), 3), (True, loc("x"), loc("print"), 4), (True, scoped("x"), scoped("a"), 5),
+        (False, lfun("f"), lfun("b"), 6), (True, loc("x"), loc("1x"), 7),
+        (True, loc("x", '(Some (LReturn [(EIdent (nm "x"))]))'), loc("b", '(Some (LReturn [(EIdent (nm "x"))]))'), 2),
+        (True, loc("x", '(Some (LReturn [(EIdent (nm "x"))]))'), loc("b", '(Some (LReturn [(EIdent (nm "b"))]))'), 0),
+    ]
+    selftest_ids = {}
+    for incl, t_in, t_bad, expect in selftests:
+        k = len(cases)
+        selftest_ids[k] = expect
+        cases.append((k, "(((%s, true), g_default), (%s, (%s, %s)))" % ("true" if incl else "false", t_in, t_bad, t_bad)))
     if unparsable > len(jobs) // 10:
         raise C.CheckBroken("%d of %d generated programs do not parse" % (unparsable, len(jobs)))
     stats = C.run_coq_stats(ctx.prop, preamble(tables), cases, chunk=40 if quick else 120)
 
+    traversal_bad = [k for k, v in stats.items() if v >= 10000 and k not in selftest_ids]
+    stats = {k: v % 10000 for k, v in stats.items()}
+    for k, expect in selftest_ids.items():
+        if stats[k] != 101 * expect:
+            raise C.CheckBroken("oracle self-test: verdict %d where %d is expected" % (stats[k], 101 * expect))
+        del stats[k]
+    control_ids = [k for k in stats if index[k][5] == "control"]
+    missed = [k for k in control_ids if stats[k] in (0, 1, 100, 101)]
+    if missed or len(control_ids) != len(controls):
+        raise C.CheckBroken("the oracle did not flag a negative control (capture with detect_globals off): %r"
+                            % [index[k][2] for k in missed])
+    for k in control_ids:
+        del stats[k]
     good = [k for k, v in stats.items() if v == 0]
     trivial = [k for k, v in stats.items() if v in (1, 100, 101)]
     bad = [(k, v) for k, v in sorted(stats.items()) if v not in (0, 1, 100, 101)]
@@ -184,10 +400,12 @@ def run(ctx):
     for k in good:
         by_origin[index[k][5]] = by_origin.get(index[k][5], 0) + 1
     ctx.stream("nameless(OUT) = nameless(IN) and new-name checks on darklua's real output (tree and re-parsed text), in Coq",
-               2 * len(cases), len(good),
+               2 * len(stats), len(good),
                [{"rules": index[k][0], "source": index[k][2][:400]} for k in good[:3]],
                passed_nontrivial=len(good), nothing_renamed=len(trivial), failed=len(bad), unparsable_programs=unparsable,
                by_origin=by_origin)
+    ctx.stream("exact output tree of the rule = Model/RenameTraversal.v rename_model (ScopeVisitor order + Rename.step), in Coq",
+               len(stats) + len(control_ids), len(good), [], mismatches=len(traversal_bad))
     reported = set()
     for k, v in bad:
         job = index[k]
@@ -205,10 +423,34 @@ def run(ctx):
                       key=key)
         if len(reported) >= 5:
             break
+    # the known collision with `self` on the real rule (a 9.8 MB method body drawing 4.73 million names)
+    witness = witness_job.result()
+    pool.shutdown()
+    captured = [l for l in witness.splitlines() if l.startswith("CAPTURED")]
+    ctx.stream("rename_variables on a method that draws every name before `self`", 1, 1 if captured else 0,
+               [{"output_excerpt": captured[0][:300]}] if captured else [], self_generated=bool(captured))
+    if captured:
+        ctx.violation("a local of a method is renamed to `self` and captures the receiver read after it",
+                      {"how": "dl-c09 self-witness --names 4730700 (source built by harness/crates/c09: function t:m() with "
+                              "`do local x,x,...(190) end` blocks leaking 189 names each, then `local y = 0 ... use(self, y)`)",
+                       "rules": '["rename_variables"]', "output_excerpt": captured[0][:600]},
+                      key="self-generated-after-4.7M-names")
     for job, stage, t in stage_errors[:3]:
         ctx.violation("darklua failed on a valid program or wrote text that does not parse: " + t[:300],
                       {"rules": job[0], "generator": job[1], "source": job[2], "stage": stage},
                       key=classify(job, "error-" + stage))
+    if traversal_bad and not ctx.violations:
+        job = index[traversal_bad[0]]
+        ctx.violation("correspondence broken: the rule's output tree differs from Model/RenameTraversal.v (visiting order or "
+                      "scope handling changed); the binding-level oracle found nothing wrong",
+                      {"stream": "traversal model-vs-code", "rules": job[0], "source": job[2],
+                       "mismatches": len(traversal_bad)}, found_input=False)
+    if model_bad and not ctx.violations:
+        what, diag = model_bad[0]
+        ctx.violation("correspondence broken: the Rust name generator / RenameProcessor differs from Model/Rename.v "
+                      "(theorems no longer apply to the code); the per-run oracle found no binding change",
+                      {"stream": what[0], "detail": repr(what[1])[:1500], "diag": diag[:1500], "mismatches": len(model_bad)},
+                      found_input=False)
     if not proofs_ok and not ctx.violations:
         failed = [n for n, okk, _ in ctx.obligations if not okk]
         ctx.violation("proof obligation no longer checks: " + "; ".join(failed), {"obligations": failed},
